@@ -17,13 +17,19 @@ use std::sync::{Arc, Mutex};
 pub struct Val {
     pub v: i64,
     pub hs: Vec<Id>,
+    /// interned handles exported by the function (kind, id)
+    pub is: Vec<(i64, Id)>,
     pub serial: u64,
 }
 
 impl Val {
     pub fn new(v: i64, hs: Vec<Id>) -> Val {
         let serial = next_serial();
-        Val { v, hs, serial }
+        Val { v, hs, is: vec![], serial }
+    }
+    pub fn with_is(mut self, is: Vec<(i64, Id)>) -> Val {
+        self.is = is;
+        self
     }
 }
 
@@ -35,7 +41,7 @@ impl std::fmt::Debug for Val {
 
 impl PartialEq for Val {
     fn eq(&self, o: &Val) -> bool {
-        let r = self.v == o.v && self.hs == o.hs;
+        let r = self.v == o.v && self.hs == o.hs && self.is == o.is;
         ev!("e": "eq", "a": self.serial, "b": o.serial, "r": r);
         cb("eq");
         r
@@ -86,6 +92,14 @@ pub fn kparts(key: &str) -> (i64, i64, String) {
                 return (0, 10 + m, id.to_string());
             }
         }
+        if let Some(m) = head.strip_prefix('I') {
+            if let Ok(m) = m.parse::<i64>() {
+                return (0, 20 + m, id.to_string());
+            }
+        }
+        if head == "T" {
+            return (0, 30, id.to_string());
+        }
         return (0, 0, id.to_string());
     }
     (0, 0, String::new())
@@ -97,6 +111,24 @@ macro_rules! evk {
         let (kj, km, ki) = $crate::items::kparts(&$key);
         $crate::log::emit(serde_json::json!({"t": $crate::log::tid(), "k": $key, "kj": kj, "km": km, "ki": ki, $($tt)*}))
     }};
+}
+
+/// Interned-field value: `Hash` deliberately keeps one bit only, so that many values share an
+/// interner shard and slot reuse (which only happens within a shard) is frequent.
+#[derive(Clone, Debug)]
+pub struct Ki(pub i64);
+impl PartialEq for Ki {
+    fn eq(&self, o: &Ki) -> bool {
+        cb("keq");
+        self.0 == o.0
+    }
+}
+impl Eq for Ki {}
+impl Hash for Ki {
+    fn hash<H: Hasher>(&self, h: &mut H) {
+        cb("khash");
+        (self.0 & 1).hash(h)
+    }
 }
 
 pub fn idstr(id: Id) -> String {
@@ -161,6 +193,14 @@ static Q2_KEYS: Mutex<Option<HashMap<Id, String>>> = Mutex::new(None);
 pub fn reset_globals() {
     *Q2_KEYS.lock().unwrap_or_else(|e| e.into_inner()) = None;
     *ING_NAMES.lock().unwrap_or_else(|e| e.into_inner()) = None;
+}
+
+/// The context of the database currently under test (for hook events, which carry no db).
+pub static CUR_CX: Mutex<Option<Arc<Cx>>> = Mutex::new(None);
+
+pub fn abs_key_global(k: salsa::DatabaseKeyIndex) -> String {
+    let cx = CUR_CX.lock().unwrap_or_else(|e| e.into_inner()).clone();
+    abs_key(cx.as_deref(), k)
 }
 
 /// Map a salsa key to the abstract key used in traces.
@@ -275,18 +315,19 @@ pub fn new_db(prog: Program) -> VDb {
                 evk!(abs_key(cx, executor_key), "e": "dda");
             }
             DidInternValue { key, revision } => {
-                evk!(abs_key(cx, key), "e": "div", "r": format!("{revision:?}"));
+                evk!(abs_key(cx, key), "e": "div", "r": format!("{revision:?}"), "ix": key.key_index().index(), "gn": key.key_index().generation());
             }
             DidReuseInternedValue { key, revision } => {
-                evk!(abs_key(cx, key), "e": "driv", "r": format!("{revision:?}"));
+                evk!(abs_key(cx, key), "e": "driv", "r": format!("{revision:?}"), "ix": key.key_index().index(), "gn": key.key_index().generation());
             }
             DidValidateInternedValue { key, revision } => {
-                evk!(abs_key(cx, key), "e": "dviv", "r": format!("{revision:?}"));
+                evk!(abs_key(cx, key), "e": "dviv", "r": format!("{revision:?}"), "ix": key.key_index().index(), "gn": key.key_index().generation());
             }
         }
         cb("event");
     })));
     let db = VDb { storage, cx };
+    *CUR_CX.lock().unwrap_or_else(|e| e.into_inner()) = Some(db.cx.clone());
     // inputs
     {
         let mut ins = db.cx.ins.lock().unwrap();
@@ -361,22 +402,22 @@ pub struct T<'db> {
 #[salsa::interned(revisions = 1)]
 pub struct I1<'db> {
     #[returns(ref)]
-    pub v: Kv,
+    pub v: Ki,
 }
 #[salsa::interned(revisions = 2)]
 pub struct I2<'db> {
     #[returns(ref)]
-    pub v: Kv,
+    pub v: Ki,
 }
 #[salsa::interned(revisions = 3)]
 pub struct I3<'db> {
     #[returns(ref)]
-    pub v: Kv,
+    pub v: Ki,
 }
 #[salsa::interned(revisions = usize::MAX)]
 pub struct I4<'db> {
     #[returns(ref)]
-    pub v: Kv,
+    pub v: Ki,
 }
 
 #[salsa::accumulator]
@@ -555,10 +596,10 @@ pub fn read_interned(db: &dyn Db, kind: i64, id: Id) -> i64 {
 
 pub fn do_intern(db: &dyn Db, kind: i64, v: i64) -> Id {
     match kind {
-        1 => I1::new(db, Kv(v)).as_id(),
-        2 => I2::new(db, Kv(v)).as_id(),
-        3 => I3::new(db, Kv(v)).as_id(),
-        _ => I4::new(db, Kv(v)).as_id(),
+        1 => I1::new(db, Ki(v)).as_id(),
+        2 => I2::new(db, Ki(v)).as_id(),
+        3 => I3::new(db, Ki(v)).as_id(),
+        _ => I4::new(db, Ki(v)).as_id(),
     }
 }
 
@@ -582,6 +623,7 @@ fn run(db: &dyn Db, key: String, sel: FnSel, hs0: Vec<Id>, is0: Vec<(i64, Id)>) 
     let mut hs = hs0; // struct handles visible to this body
     let mut is = is0; // interned handles
     let mut created: Vec<Id> = vec![];
+    let mut created_is: Vec<(i64, Id)> = vec![];
     let mut r: i64 = 0;
     let mut n = 1usize;
     let mut steps = 0;
@@ -598,13 +640,15 @@ fn run(db: &dyn Db, key: String, sel: FnSel, hs0: Vec<Id>, is0: Vec<(i64, Id)>) 
         };
         match nd.op.as_str() {
             "ret" => {
-                let v = Val::new(nd.a, created.clone());
-                evk!(key, "e": "be", "v": v.v, "hs": created.iter().map(|i| idstr(*i)).collect::<Vec<_>>(), "s": v.serial);
+                let v = Val::new(nd.a, created.clone()).with_is(created_is.clone());
+                evk!(key, "e": "be", "v": v.v, "hs": created.iter().map(|i| idstr(*i)).collect::<Vec<_>>(),
+                    "is": created_is.iter().map(|(k, i)| format!("I{k}@{}", idstr(*i))).collect::<Vec<_>>(), "s": v.serial);
                 return v;
             }
             "retr" => {
-                let v = Val::new(r, created.clone());
-                evk!(key, "e": "be", "v": v.v, "hs": created.iter().map(|i| idstr(*i)).collect::<Vec<_>>(), "s": v.serial);
+                let v = Val::new(r, created.clone()).with_is(created_is.clone());
+                evk!(key, "e": "be", "v": v.v, "hs": created.iter().map(|i| idstr(*i)).collect::<Vec<_>>(),
+                    "is": created_is.iter().map(|(k, i)| format!("I{k}@{}", idstr(*i))).collect::<Vec<_>>(), "s": v.serial);
                 return v;
             }
             "in" => {
@@ -632,6 +676,7 @@ fn run(db: &dyn Db, key: String, sel: FnSel, hs0: Vec<Id>, is0: Vec<(i64, Id)>) 
                 let v = res.v;
                 let nh = res.hs.len();
                 hs.extend(res.hs.iter().copied());
+                is.extend(res.is.iter().copied());
                 evk!(key, "e": "rd", "sj": j, "st": "fn", "sa": nh, "sb": 0, "sk": format!("f{j}"), "v": v);
                 cb("read");
                 if nd.op == "call" {
@@ -703,6 +748,7 @@ fn run(db: &dyn Db, key: String, sel: FnSel, hs0: Vec<Id>, is0: Vec<(i64, Id)>) 
             "intern" => {
                 let id = do_intern(db, nd.a, nd.b);
                 is.push((nd.a, id));
+                created_is.push((nd.a, id));
                 evk!(key, "e": "int", "kind": nd.a, "v": nd.b, "id": idstr(id), "ix": id.index(), "gn": id.generation());
                 cb("read");
                 n = kid(0);
@@ -714,7 +760,8 @@ fn run(db: &dyn Db, key: String, sel: FnSel, hs0: Vec<Id>, is0: Vec<(i64, Id)>) 
                 } else {
                     let (kind, id) = is[slot - 1];
                     let v = read_interned(db, kind, id);
-                    evk!(key, "e": "rd", "sj": 0, "st": "int", "sa": kind, "sb": slot, "sk": format!("I{kind}@{}", idstr(id)), "v": v);
+                    evk!(key, "e": "rd", "sj": 0, "st": "int", "sa": kind, "sb": slot, "sk": format!("I{kind}@{}", idstr(id)), "v": v,
+                        "ix": id.index(), "gn": id.generation());
                     cb("read");
                     n = kid(v);
                 }
